@@ -15,7 +15,7 @@ struct Ctx {
 	std::vector<std::vector<std::string>> *ref = nullptr;
 	std::ostream *o = nullptr;
 	size_t idx = 0;
-	size_t firstDiff = ~0ull;
+	std::vector<std::vector<std::string>> prev;
 };
 static Ctx g_ctx;
 
@@ -32,11 +32,13 @@ static void boundary(const char *pass, hlim::Circuit &circuit) {
 	size_t idx = c.idx++;
 	try {
 		auto tr = vh::simulate(circuit, *c.built, *c.stim);
+		// the full trace is printed whenever it differs from the trace at the previous boundary, so that a violation is
+		// attributed to the pass that introduced it
+		if (tr == c.prev) { *c.o << "bd " << idx << ' ' << pass << (tr == *c.ref ? " same\n" : " unchanged\n"); return; }
+		c.prev = tr;
 		if (tr == *c.ref) { *c.o << "bd " << idx << ' ' << pass << " same\n"; return; }
 		*c.o << "bd " << idx << ' ' << pass << " diff\n";
-		// print the full trace only for the first few differing boundaries (later ones normally repeat the same difference)
-		if (c.firstDiff == ~0ull) c.firstDiff = idx;
-		if (idx < c.firstDiff + 3) printTrace(*c.o, "bt", std::to_string(idx) + " ", tr);
+		printTrace(*c.o, "bt", std::to_string(idx) + " ", tr);
 	} catch (const std::exception &e) {
 		std::string msg = e.what(); for (auto &ch : msg) if (ch == '\n' || ch == ' ') ch = '_';
 		*c.o << "bd " << idx << ' ' << pass << " nosim " << msg.substr(0, 80) << '\n';
@@ -59,7 +61,7 @@ static bool runOne(uint64_t k, const vh::Recipe &recipe, bool minimal, bool with
 		auto ref = vh::simulate(design.getCircuit(), b, st, &adef);
 		o << "adef " << adef << '\n';
 		printTrace(o, "ref", "", ref);
-		g_ctx = Ctx{&b, &st, &ref, &o, 0, ~0ull};
+		g_ctx = Ctx{&b, &st, &ref, &o, 0, ref};
 		hlim::verif_passBoundary = &boundary;
 		try {
 			if (minimal) design.getCircuit().postprocess(hlim::MinimalPostprocessing{}); else design.postprocess();
@@ -101,6 +103,7 @@ int main(int argc, char **argv) {
 		go.wide = rng.chance(1, 6);
 		go.undefinedConsts = rng.chance(1, 8);
 		go.fullyDefined = rng.chance(2, 3);
+		go.patternBias = rng.chance(1, 3) ? 30 : 8;
 		vh::RecipeGen gen(rng, go);
 		vh::Recipe recipe = gen.generate();
 		bool withUndef = !go.fullyDefined && rng.chance(1, 2);
